@@ -130,7 +130,7 @@ var props = map[string]*propCfg{
 		DesignRef:   "DESIGN.md §4 C14",
 	},
 	"C15": {
-		Rule: "SetFloat64 (30%): float64 bit patterns (uniform bits, subnormals, powers of two +-1 ulp, extremes, short binary fractions, decimal-looking values, +-0, +-Inf, NaN) at precision 0 (-> 17), 1..40 and 700..800 (holds every float64 expansion): sign kept, zeros/infinities mapped to themselves, NaN => ErrNaN, exact whenever MinPrec(expansion) <= precision, otherwise at most one unit in the last place from RoundOnce(exact). SetFloat (15%): big.Float of 1..2 000 bits, binary exponents to +-3 000 (thorough +-100 000), +-0 and +-Inf: same rules with a 64-unit bound; argument unchanged. Float64/Float32 (40%): Decimals on the float grid, at exact midpoints of adjacent floats, and those nudged by a relative 10^-3..10^-60; values around both ends of each format's range and at astronomically large exponents; zeros, infinities: the returned value must be the float nearest to x (big.Rat.Float64/Float32 on the exact rational, range alone beyond |exponent| 400) and the accuracy sign(returned - x). Float (15%): result precision as documented, within 64 binary units of x, special values. Non-trivial = finite inputs.",
+		Rule:        "SetFloat64 (30%): float64 bit patterns (uniform bits, subnormals, powers of two +-1 ulp, extremes, short binary fractions, decimal-looking values, +-0, +-Inf, NaN) at precision 0 (-> 17), 1..40 and 700..800 (holds every float64 expansion): sign kept, zeros/infinities mapped to themselves, NaN => ErrNaN, exact whenever MinPrec(expansion) <= precision, otherwise at most one unit in the last place from RoundOnce(exact). SetFloat (15%): big.Float of 1..2 000 bits, binary exponents to +-3 000 (thorough +-100 000), +-0 and +-Inf: same rules with a 64-unit bound; argument unchanged. Float64/Float32 (40%): Decimals on the float grid, at exact midpoints of adjacent floats, and those nudged by a relative 10^-3..10^-60; values around both ends of each format's range and at astronomically large exponents; zeros, infinities: the returned value must be the float nearest to x (big.Rat.Float64/Float32 on the exact rational, range alone beyond |exponent| 400) and the accuracy sign(returned - x). Float (15%): result precision as documented, within 64 binary units of x, special values. Non-trivial = finite inputs.",
 		Assumptions: []string{"'a few dozen units' (SetFloat, Float) is read as 64 units in the last place: a drift alarm, not a tight specification", "big.Float binary exponents are capped (oracle cost): +-3 000 quick, +-100 000 thorough", "Float64/Float32 results for x within 2^-8 ulp (float64) / 2^-5 ulp (float32) of a midpoint or of a representable value are known finding D12 (double rounding through a 64/32-bit big.Float); everything outside that band is a violation"},
 		Floors:      []floor{{"SetFloat64/", 30000}, {"setfloat64_exactly_representable", 3000}, {"SetFloat/finite", 10000}, {"Float64/midpoint", 5000}, {"Float32/midpoint", 2000}, {"tofloat_outside_double_rounding_band", 10000}, {"Float/finite", 10000}, {"Float64/range-edge", 3000}},
 		LevelText:   "Runtime monitoring of the binary conversions against exact rationals (big.Rat) with inputs constructed on and beside the float grid.",
@@ -138,7 +138,7 @@ var props = map[string]*propCfg{
 		DesignRef:   "DESIGN.md §4 C15",
 	},
 	"C16": {
-		Rule: "Triples (a, b, c): a random (1..120 digits, exponents incl. both range ends, zeros, infinities), b related to a (equal; negated; last digit +-1; same value with a longer mantissa +-1 in a far lower place; exponent +-1; equal with trailing zeros moved into the exponent; unrelated), c related to b or random. Each value is built through a different route (raw words with extra low zero words, parser at a larger precision, arithmetic result, a receiver that held a 100..400-digit value before, plain) with random precision, mode and accuracy history. All nine Cmp results must equal the sign of the exact difference (class, then leading-digit exponent, then aligned coefficients), be antisymmetric, and the library's own answers must sort transitively; Sign, Signbit, IsZero, IsInf must agree; operands unchanged. Non-trivial = b related to a.",
+		Rule:        "Triples (a, b, c): a random (1..120 digits, exponents incl. both range ends, zeros, infinities), b related to a (equal; negated; last digit +-1; same value with a longer mantissa +-1 in a far lower place; exponent +-1; equal with trailing zeros moved into the exponent; unrelated), c related to b or random. Each value is built through a different route (raw words with extra low zero words, parser at a larger precision, arithmetic result, a receiver that held a 100..400-digit value before, plain) with random precision, mode and accuracy history. All nine Cmp results must equal the sign of the exact difference (class, then leading-digit exponent, then aligned coefficients), be antisymmetric, and the library's own answers must sort transitively; Sign, Signbit, IsZero, IsInf must agree; operands unchanged. Non-trivial = b related to a.",
 		Assumptions: []string{"values are constructed through public setters and verified by read-back before use"},
 		Floors:      []floor{{"pair/equal", 5000}, {"pair/last-digit", 5000}, {"pair/longer-mantissa", 5000}, {"pair/equal-trailing-zeros", 5000}, {"route/low-zero-words", 20000}, {"comparisons", 1000000}},
 		LevelText:   "Runtime monitoring of Cmp against the exact order on pairs constructed to be equal up to representation or to differ in the last place only.",
@@ -146,7 +146,7 @@ var props = map[string]*propCfg{
 		DesignRef:   "DESIGN.md §4 C16",
 	},
 	"C12": {
-		Rule: "Decimal literals (35%): generated from a digit string (1..6 000 digits, rounding-aimed or patterned, leading/trailing zeros, all zeros), a radix point anywhere, an exponent to both ends of the int32 range, rendered plainly and with '_' separators, through Parse(s,10), Parse(s,0), SetString, ParseDecimal, UnmarshalText and fmt.Sscan; receiver precision 0 (-> 34), 1..45 or digit count +-3, six modes, dirty receivers: value and accuracy against the exact literal value by both oracle models, reported base, resulting precision and mode. Binary literals (20%): 0b/0o/0x mantissas with optional fraction and optional p exponent, decimal mantissas with a p exponent: exact value m x 2^k; stored exactly when its decimal expansion fits the precision, otherwise within one unit of the correctly rounded value; detected base. Language (45%): token soup, mutated and truncated literals, literals with trailing garbage, x bases {0,2,8,10,16}: no entry point may panic; a failed call returns a nil *Decimal; an accepted one leaves a canonical value; acceptance and detected base must equal big.Float.Parse for literals whose exponent magnitude is <= 10^4 (beyond that math/big's binary exponent range differs). Every case is non-trivial.",
+		Rule:        "Decimal literals (35%): generated from a digit string (1..6 000 digits, rounding-aimed or patterned, leading/trailing zeros, all zeros), a radix point anywhere, an exponent to both ends of the int32 range, rendered plainly and with '_' separators, through Parse(s,10), Parse(s,0), SetString, ParseDecimal, UnmarshalText and fmt.Sscan; receiver precision 0 (-> 34), 1..45 or digit count +-3, six modes, dirty receivers: value and accuracy against the exact literal value by both oracle models, reported base, resulting precision and mode. Binary literals (20%): 0b/0o/0x mantissas with optional fraction and optional p exponent, decimal mantissas with a p exponent: exact value m x 2^k; stored exactly when its decimal expansion fits the precision, otherwise within one unit of the correctly rounded value; detected base. Language (45%): token soup, mutated and truncated literals, literals with trailing garbage, x bases {0,2,8,10,16}: no entry point may panic; a failed call returns a nil *Decimal; an accepted one leaves a canonical value; acceptance and detected base must equal big.Float.Parse for literals whose exponent magnitude is <= 10^4 (beyond that math/big's binary exponent range differs). Every case is non-trivial.",
 		Assumptions: []string{"Scan (fmt) accepts a valid prefix by design: its acceptance is not compared with Parse's", "language comparison is limited to exponent magnitudes <= 10^4; range rejections beyond that are covered by the decimal-literal cases at both range ends"},
 		Floors:      []floor{{"decimal/", 60000}, {"binary/", 30000}, {"binary_exactly_representable", 5000}, {"language/accepted", 10000}, {"language/rejected", 20000}, {"language_compared_with_math_big", 40000}, {"entry_point_calls", 150000}},
 		LevelText:   "Runtime monitoring of the parser against exact literal values and against math/big's parser as a reference for the accepted language; grammar-aware fuzzing for totality.",
@@ -154,7 +154,7 @@ var props = map[string]*propCfg{
 		DesignRef:   "DESIGN.md §4 C12",
 	},
 	"C13": {
-		Rule: "Differential (55%, no model): every finite float64 has a finite exact decimal expansion; x = that expansion as a Decimal in ToNearestEven. Text/Append(x, f, prec) must equal strconv.FormatFloat(v, f, prec, 64) for f in e E f g G and prec 0..45 (prec -1 only when strconv's shortest form is the exact expansion), and fmt.Sprintf(verb, x) must equal fmt.Sprintf(verb, v) for verbs e E f F g G v x every subset of the flags '+', ' ', '-', '0' x width 0..30 x precision 0..20 or absent, incl. +-0, +-Inf, values at the %g thresholds and 9.99->10.0 carries. Model (45%): arbitrary Decimals (1..200 digits, digit strings aimed at the requested rounding position incl. positions at or above the leading digit, six modes, zeros, infinities): Text(f, prec) for f in e E f g G and prec -1..40 must equal RoundToPlace(x, position, x.Mode()) laid out by a port of strconv's %e/%f/%g rules, itself cross-checked against strconv on every differential case; 'p' and 'b' layouts directly; String() = Text('g', 10). x unchanged. Non-trivial = finite values.",
+		Rule:        "Differential (55%, no model): every finite float64 has a finite exact decimal expansion; x = that expansion as a Decimal in ToNearestEven. Text/Append(x, f, prec) must equal strconv.FormatFloat(v, f, prec, 64) for f in e E f g G and prec 0..45 (prec -1 only when strconv's shortest form is the exact expansion), and fmt.Sprintf(verb, x) must equal fmt.Sprintf(verb, v) for verbs e E f F g G v x every subset of the flags '+', ' ', '-', '0' x width 0..30 x precision 0..20 or absent, incl. +-0, +-Inf, values at the %g thresholds and 9.99->10.0 carries. Model (45%): arbitrary Decimals (1..200 digits, digit strings aimed at the requested rounding position incl. positions at or above the leading digit, six modes, zeros, infinities): Text(f, prec) for f in e E f g G and prec -1..40 must equal RoundToPlace(x, position, x.Mode()) laid out by a port of strconv's %e/%f/%g rules, itself cross-checked against strconv on every differential case; 'p' and 'b' layouts directly; String() = Text('g', 10). x unchanged. Non-trivial = finite values.",
 		Assumptions: []string{"excluded because they are not what the statement names: the '#' flag; '+'/' ' combined with %v (fmt turns them into plusV/spaceV for built-in floats, which a Formatter cannot observe); precision-less %g/%G/%v unless the float's shortest form is its exact expansion", "'f' is exercised at |exponent| <= 3 000"},
 		Floors:      []floor{{"strconv/", 50000}, {"fmt/", 50000}, {"model/f/position-at-or-above-leading-digit", 1500}, {"model/e/aimed-at-position", 3000}, {"model/g/aimed-at-position", 3000}, {"model/p/", 8000}, {"model/b/", 8000}, {"mode/ToNegativeInf", 10000}},
 		LevelText:   "Runtime differential monitoring of formatting against strconv and fmt themselves on float64-representable values, plus a strconv-validated layout model for arbitrary Decimals in all six modes.",
@@ -162,12 +162,28 @@ var props = map[string]*propCfg{
 		DesignRef:   "DESIGN.md §4 C13",
 	},
 	"C11": {
-		Rule: "Values (1..3 000 digits incl. interior and trailing zero words, exponents from MinExp to MaxExp, both signs, zeros, infinities) built through five routes (raw words with extra low zero words, parser, arithmetic, reused longer buffer, plain) are printed with Text/Append in e, E, f (|exponent| < 5 000), g, G, p at precision -1, with b, MarshalText and json.Marshal; the text must (1) carry exactly the oracle's significant digits, MinPrec of them (first through last non-zero digit of the mantissa part; not for b/JSON), (2) parse back (Parse base 10 / SetString / UnmarshalText / json.Unmarshal) into receivers of precision max(1,MinPrec), +1 and +40, any mode, dirty or fresh, to exactly x's value and sign incl. -0 and +-Inf, comparing equal to x. x unchanged. Non-trivial = finite values.",
+		Rule:        "Values (1..3 000 digits incl. interior and trailing zero words, exponents from MinExp to MaxExp, both signs, zeros, infinities) built through five routes (raw words with extra low zero words, parser, arithmetic, reused longer buffer, plain) are printed with Text/Append in e, E, f (|exponent| < 5 000), g, G, p at precision -1, with b, MarshalText and json.Marshal; the text must (1) carry exactly the oracle's significant digits, MinPrec of them (first through last non-zero digit of the mantissa part; not for b/JSON), (2) parse back (Parse base 10 / SetString / UnmarshalText / json.Unmarshal) into receivers of precision max(1,MinPrec), +1 and +40, any mode, dirty or fresh, to exactly x's value and sign incl. -0 and +-Inf, comparing equal to x. x unchanged. Non-trivial = finite values.",
 		Assumptions: []string{"'f' output is generated only for |exponent| < 5 000 (it materialises the exponent)"},
 		Floors:      []floor{{"format/e/finite", 8000}, {"format/f/finite", 5000}, {"format/g/finite", 8000}, {"format/p/finite", 8000}, {"format/b/finite", 8000}, {"format/JSON/finite", 8000}, {"format/MarshalText/finite", 8000}, {"round_trips", 250000}, {"route/low-zero-words", 10000}},
 		LevelText:   "Runtime round-trip monitoring (metamorphic): print, check the digits against the exact value, parse back at three precisions.",
 		Technique:   "runtime metamorphic monitoring: print/parse round trip with digit-level comparison against the exact value",
 		DesignRef:   "DESIGN.md §4 C11",
+	},
+	"C17": {
+		Rule:        "Round trips (25%): values of every form x mode x accuracy (Below/Above produced by real roundings) x precisions incl. mantissas much shorter than the precision, through GobEncode/GobDecode and through encoding/gob streams into a zero value: value, sign, precision, mode and accuracy must come back; x unchanged. Into a receiver with precision q != 0 (15%): q and the receiver's mode kept, value = the transmitted value rounded once to (q, mode) by both oracle models. Hostile bytes (60%): valid encodings truncated at every length, with one bit flipped (header and body), with random byte edits, extended with trailing bytes; hand-built payloads with form 3, mode 6/7, accuracy 3, precision 0 / 2^32-1 / random, exponent anywhere, mantissa words >= 10^19, 2^64-1, zero or short leading word, partial last word; random bytes. GobDecode must never panic; whatever it returns, the receiver must pass the C08 walker; an accepted payload must survive a battery of follow-up calls (Text, Cmp, Add, Mul, Sub, Set, Neg, Int64, re-encoding and decoding to an equal value). Every case is non-trivial.",
+		Assumptions: []string{"the follow-up battery is skipped (and counted) when an accepted payload carries a precision above 100 000: a legitimate attribute, but Set/Mul at that size only test the allocator"},
+		Floors:      []floor{{"roundtrip/direct", 20000}, {"roundtrip/encoding-gob", 20000}, {"roundtrip-acc/-1", 5000}, {"roundtrip-acc/1", 5000}, {"into-receiver", 25000}, {"hostile/truncated", 20000}, {"hostile/bit-flip", 20000}, {"hostile/hand-built", 30000}, {"hostile_accepted", 20000}, {"hostile_rejected", 50000}},
+		LevelText:   "Runtime monitoring of the Gob codec: attribute-exact round trips, oracle-checked rounding into receivers, and field-aware fuzzing of the decoder with the invariant walker and a follow-up battery as oracles.",
+		Technique:   "runtime monitoring: round-trip comparison, exact rounding oracle, recover()-instrumented structured fuzzing + invariant walker",
+		DesignRef:   "DESIGN.md §4 C17",
+	},
+	"C19": {
+		Rule:        "Sequences of 30 context operations run in lock-step with a sequential model {prec, mode, latched}: Add/Sub/Mul/Quo/FMA/Sqrt/Neg/Abs/Set on operands of every class (finite to 60 digits, +-0, +-Inf: valid and NaN-producing combinations), receivers with their own precision/mode/old contents (12% also an operand), Err, SetPrec (incl. 0), SetMode, and the factories New/NewInt/NewInt64/NewUint64/NewRat/NewFloat64 (25% NaN)/NewFloat/NewString/ParseDecimal. Per step: while the model is latched, an operation must return the same pointer and leave the receiver's entire raw state unchanged; otherwise a receiver distinct from the operands must hold the exact result rounded once to the CONTEXT's precision and mode (both oracle models) and carry those attributes; a NaN-producing call must not panic and latches the model (first error wins); Err() returns an ErrNaN exactly once, then nil, and re-arms. Panics that are not ErrNaN are injected three ways - a nil operand (runtime error), an error value and a string raised from inside the library's rounding step through the verif hook - and must escape without latching the context. Factories: attributes = context's, exact ones judged for value. Every step is non-trivial.",
+		Assumptions: []string{"when the receiver is also an operand the context rounds it before operating (documented caveat): only the latch behaviour is judged then", "nothing is promised about factories while the context is latched (they have no receiver): only 'no panic' is demanded", "NewFloat/NewFloat64 values are C15's (faithful, not exact)"},
+		Floors:      []floor{{"ops_while_latched", 10000}, {"nan_latched", 3000}, {"err_returned_ErrNaN", 2000}, {"injected_panics", 5000}, {"op/FMA", 20000}, {"op/Sqrt", 20000}, {"factory/NewFloat64", 8000}, {"op/Err", 25000}},
+		LevelText:   "Model-based runtime monitoring: a sequential reference model of the context's latch runs in lock-step with the real Context over generated operation sequences, with injected foreign panics.",
+		Technique:   "runtime trace checking against an executable sequential model; fault (panic) injection through a tag-guarded hook",
+		DesignRef:   "DESIGN.md §4 C19",
 	},
 }
 
